@@ -39,7 +39,7 @@ TRUSTED = [
     'dependency contract scipy.special.factorial == exact k!',
     'dependency contract scipy.ndimage.convolve1d(mode=reflect, axis=0): explicit index formula '
     '(conformance-tested against scipy in setup_cmd/selftest)',
-    'make_exact(h) == h in real arithmetic (its own obligation is discharged under C10)',
+    'make_exact(h) == h in real arithmetic (discharged in this check: contract:make_exact, generator shared with C10)',
     'composition lemma O6.2 (DESIGN.md): A, B, C, D, D\' and P.M == I imply every returned row == f^(n)(x); '
     'the algebra of that lemma is discharged by D\' coefficient-wise, the final linear combination is by hand',
     'z3 4.x/5.x and cvc5 as deciders of QF_NRA / QF_LIA validity',
@@ -79,6 +79,9 @@ def groups(tier):
     out.append(('tables', ('tables',)))
     out.append(('cache-base-case', ('cache0',)))
     out.append(('integer-quotients', ('intq',)))
+    # the cfg groups take make_exact by contract (identity in real arithmetic): the contract is discharged here on the real bodies,
+    # so the rule is built for the ratio the steps are taken on
+    out.append(('contract:make_exact', ('dep', 'C10', 'run_exact', (), {})))
     return out
 
 
@@ -485,6 +488,9 @@ def run_intq():
 
 
 def run_group(args):
+    if args[0] == 'dep':
+        import importlib
+        return getattr(importlib.import_module('props.' + args[1]), args[2])(*args[3], **args[4])
     if args[0] == 'intq':
         return run_intq()
     if args[0] == 'cache0':
@@ -507,6 +513,8 @@ def replay_case(ob):
         return dict(kind='C06.cache0')
     if ob['name'].startswith('integer-quotients/'):
         return dict(kind='C06.intq')
+    if ob['name'].startswith('contract:make_exact/'):
+        return dict(kind='C06.exact', method='forward', n=2, order=2, step_ratios=[2 ** 0.5, 1.23456789, 3.0 ** 0.5], x=0.3, h=0.5, history=[])
     mm = re.search(r'cfg\[(\w+),n=(\d+)\]/order=(\d+)/', ob['name'])
     if mm:
         method, n, order = mm.group(1), int(mm.group(2)), int(mm.group(3))
